@@ -256,6 +256,11 @@ def ob_shim_differential(budget_s=120):
     return shimtest.ob_shim_differential(budget_s)
 
 
+def ob_corpus_differential(budget_s=300):
+    from vlib import shimtest
+    return shimtest.ob_corpus_differential(budget_s)
+
+
 def ob_overrides_present(budget_s=10):
     """structural: every operator the property names is overridden in class Beat (regenerated from the AST)"""
     from vlib import symx
@@ -277,6 +282,8 @@ def ob_overrides_present(budget_s=10):
 def obligations(tier):
     obs = [dict(name="shim_differential", func="ob_shim_differential", args=(), budget_s=120,
                 bounds="the repository's 70 timing/notes unit tests executed inside the shim-loaded modules (validation of the stand-ins; a failure is fatal)"),
+           dict(name="corpus_differential", func="ob_corpus_differential", args=(), budget_s=300,
+                bounds="all 17 corpus charts: decode, re-encode, group/ungroup and note timing agree between the shim-loaded and the real modules (validation of the stand-ins; a failure is fatal)"),
            dict(name="construct_exact", func="ob_construct_exact", args=(), budget_s=120, bounds="n, d unbounded integers, d != 0; Fraction denominators " + str(DENS)),
            dict(name="construct_round", func="ob_construct_round", args=(), budget_s=120, bounds="x any real with |x| <= 1e7; float / Decimal / decimal string / from_str"),
            dict(name="unary", func="ob_unary", args=(), budget_s=120, bounds="numerator unbounded, denominators " + str(DENS)),
